@@ -339,6 +339,24 @@ pub fn run(ctx: &Ctx) -> Report {
         }
         out.into_iter()
     });
+    // (f) character-level mutants: delete the character at every position; insert each of a set of
+    // lexically significant characters at every (quick: every third) position
+    let inserts: &[&str] = &["\"", "}", "{", "$", "\\", "\u{e9}", "\n", "/", ".", "#"];
+    let stride = if thorough { 1 } else { 3 };
+    let fam_f = files_ref.iter().flat_map(move |(_, src)| {
+        let mut out: Vec<Case> = Vec::new();
+        let idx: Vec<(usize, char)> = src.char_indices().collect();
+        for (k, (i, c)) in idx.iter().enumerate() {
+            let end = i + c.len_utf8();
+            out.push(Case { family: "f_char_delete", src: format!("{}{}", &src[..*i], &src[end..]), must_err: false });
+            if k % stride == 0 {
+                for ins in inserts {
+                    out.push(Case { family: "f_char_insert", src: format!("{}{}{}", &src[..*i], ins, &src[*i..]), must_err: false });
+                }
+            }
+        }
+        out.into_iter()
+    });
     let nv = VOCAB.len();
     let total_seq: usize = (1..=seq_len).map(|l| nv.pow(l as u32)).sum();
     let fam_c = (0..total_seq).map(move |mut idx| {
@@ -387,7 +405,7 @@ pub fn run(ctx: &Ctx) -> Report {
         }
         out.into_iter()
     });
-    let all = fam_a.chain(fam_b).chain(fam_e).chain(fam_d).chain(fam_c);
+    let all = fam_a.chain(fam_b).chain(fam_e).chain(fam_d).chain(fam_f).chain(fam_c);
     // batches of 400 inputs
     struct Batcher<I: Iterator<Item = Case>> {
         it: I,
@@ -434,7 +452,7 @@ pub fn run(ctx: &Ctx) -> Report {
     report.cov("states", json!(acc.distinct.len()));
     report.cov("transitions", json!(acc.evaluations));
     report.cov("traces_validated_against_impl", json!(acc.evaluations));
-    report.cov("rule", json!("inputs enumerated exhaustively per family (every prefix at every char boundary of every repository script and core.yl; token-level delete/duplicate/swap[/replace-by-each-token-kind] mutants at every token position; every token sequence up to the stated length over the full token vocabulary; nesting ladders and limit-sized programs; valid programs with one stray closer at every token position). distinct = distinct source text; non-trivial = at least two tokens by the reference lexer."));
+    report.cov("rule", json!("inputs enumerated exhaustively per family (every prefix at every char boundary of every repository script and core.yl; token-level delete/duplicate/swap[/replace-by-each-token-kind] mutants at every token position; every token sequence up to the stated length over the full token vocabulary; nesting ladders and limit-sized programs; valid programs with one stray closer at every token position; character-level mutants: every single-character deletion and insertions of ten lexically significant characters). distinct = distinct source text; non-trivial = at least two tokens by the reference lexer."));
     report.cov("exhaustive", json!(true));
     report.cov("bounds", json!({"token_sequence_length": seq_len, "vocabulary": nv, "replacement_mutants": thorough, "ladder_depth_max": 256}));
     report.cov("by_family", json!(acc.by_family));
